@@ -14,7 +14,10 @@ nothing that is without meaning for the compiled program.
 
 Workload: vlib.irgen in kind-coverage mode, a fixed front-end corpus (C, C3,
 Python snippets, each at -O0 and -O2) and hand-built directed modules
-(vlib.irrt).  Constructs of OPEN findings are kept out of the sweep (irgen
+(vlib.irrt).  Narrowed against DESIGN: the front-end modules come from the
+fixed corpus (vlib.irrt_corpus), not from cgen/c3gen/pygen; only functions
+whose parameters are all integers or floats are executed (pointer and blob
+parameters: text + structure only); inline assembly is never executed.  Constructs of OPEN findings are kept out of the sweep (irgen
 dials, ``#ifdef`` alternatives of the corpus, vlib.irrt.neutralise); the
 thorough tier also runs the unrestricted workload with
 neutralise-and-retest.  The evidence lists every instruction class,
